@@ -139,10 +139,39 @@ def run(tier):
         else:
             chk.drift("C01|composite-outcome|spec=%s real=%s" % (spec, real["k"]), "EvalAbs.tla (oracle mode) predicts %s, the real pipeline gives %s on e.g. %r" % (spec, real["k"], text[:160]))
     chk.cov["evaluations"] += len(ps)
+    # dependency graphs over two declarations of every kind (RecGraphs) and the recursive instantiations (RecInst): what
+    # the checker accepts of them must evaluate normally too (agreement with EvalAbs.tla in oracle mode is recorded as drift)
+    for famname in ("recgraphs2", "recinst"):
+        rf = run_tlc("DenMC", "Prog_%s.cfg" % famname, workers=4, timeout=900, java_opts=["-Xss512m"])
+        chk.add_tlc(rf)
+        fps = [c["prog"] for c in rf.cases]
+        fes, frs = oracle.evalabs(fps, chunk=600)
+        for r2 in frs:
+            chk.add_tlc(r2)
+        fcases = [progs.harness_case(p, style=i % 4)[0] for i, p in enumerate(fps)]
+        fobs = run_oalv_parallel("compile", fcases, jobs=8)
+        fc = {}
+        for p, hc, o, e in zip(fps, fcases, fobs, fes):
+            if o.get("outcome") == "skipped":
+                continue
+            real = progs.real_outcome(o)
+            fc[((e or {}).get("outcome"), real["k"])] = fc.get(((e or {}).get("outcome"), real["k"]), 0) + 1
+            text = hc["files"][hc["main"]]
+            if real["k"] in ("OK", "ERROR", "CRASH", "ABORT", "HANG"):
+                accepted += 1
+            if real["k"] in ("CRASH", "ABORT", "HANG") and real.get("phase") != "load":
+                key = key_for(real, None) if real["k"] == "CRASH" else "C01|%s" % real["k"].lower()
+                chk.violation(key, "accepted program makes the back end %s: %r" % (real["k"].lower(), text[:200]), {"files": hc["files"], "family": [famname, "", ""], "real": real})
+            elif e is not None and not (e["outcome"] == real["k"] or (e["outcome"] == "DIVERGE" and real["k"] in ("ABORT", "HANG"))):
+                chk.drift("C01|%s-outcome|spec=%s real=%s" % (famname, e["outcome"], real["k"]), "EvalAbs.tla (oracle mode) predicts %s, the real pipeline gives %s on e.g. %r" % (e["outcome"], real["k"], text[:160]))
+            else:
+                chk.cov["traces_validated_against_impl"] += 1
+        chk.cov["evaluations"] += len(fps)
+        chk.notes.setdefault("recursive_families_spec_vs_real", {})[famname] = {"%s/%s" % k: v for k, v in sorted(fc.items(), key=str)}
     chk.cov["distinct_nontrivial"] = accepted
     chk.notes["composites_spec_vs_real"] = {"%s/%s" % k: v for k, v in sorted(gcounts.items())}
     chk.cov["rule"] = ("PosShape: 22 consuming positions x 25 shapes x 3 (quick) / 6 (thorough) indirections; FnPos: 18 parameter positions x 25 shapes x "
-                       "{local, imported}; the Arity family (too few / too many arguments, local, imported, concat); recursive declaration shapes; seeded random composite programs "
+                       "{local, imported}; the Arity family (too few / too many arguments, local, imported, concat); recursive declaration shapes; the RecGraphs(2) and RecInst families; seeded random composite programs "
                        "(gen.py; 600 quick / 8000 thorough) judged by EvalAbs.tla in oracle mode; non-trivial = accepted by the real compiler (the property's antecedent); "
                        "members are distinct triples")
     if r.cases:
